@@ -641,6 +641,9 @@ func main() {
 	r.Cases("threshold", r.N(60, 1500), ev.Opt{HangViolation: true}, thresholdCase)
 	r.Cases("churn", r.N(3000, 100000), ev.Opt{HangViolation: true}, churnCase)
 	r.Cases("dense", r.N(160, 4000), ev.Opt{HangViolation: true}, denseCase)
+	// cold start: one fresh process per case (first bitmap call of the process = first operation of the case)
+	r.CasesProc("cold-start/mix", 16, ev.Opt{Procs: 16, HangViolation: true}, mixCase)
+	r.CasesProc("cold-start/dense", 4, ev.Opt{Procs: 4, HangViolation: true}, denseCase)
 	// the array->bitmap conversion uses an unsafe cast: one pass under -race (which implies checkptr)
 	r.CasesProc("threshold/checkptr", r.N(8, 100), ev.Opt{Bin: "race", Procs: 4}, thresholdCase)
 	r.Require("enumerations", 1000)
